@@ -14,6 +14,8 @@ For every function, in source order (after gcc -E):
   * the list of `for (...)` headers becomes  Definition <fn>_q_loops : list string.
 spec["call_funcs"] = [[file, function, [callee, ...]], ...]: Definition <fn>_q_calls : list string, the calls the
 function makes to the listed callees, in source order, with their (whitespace-normalised) argument text.
+spec["cond_funcs"] = [[file, function, [callee, ...]], ...]: Definition <fn>_q_conds : list string, the text of the
+`if` conditions of the function that call one of the listed callees (how a lookup's result is tested).
 Sub-expressions are normalised first:  a[i] -> a_i,  a[ndims - 1] -> a_last,  a[j + 1] -> a_next,  p->f -> p_f,
 d[i].f -> f,  d[j + 1].f -> f_next,  d[ndims - 1].f -> f_last,  *p -> p.  Casts to int32/uint8... keep their
 wrap-around meaning (H.P).  Anything that does not parse is listed in a comment, not silently dropped."""
@@ -143,5 +145,16 @@ def emit(repo, spec, H):
             calls.append("%s(%s)" % (m.group(1), args))
         lines.append("(* %s: calls of %s to %s, in source order *)" % (f, fn, ", ".join(callees)))
         lines.append("Definition %s_q_calls : list string := [%s]." % (fn, ";\n  ".join('"%s"%%string' % c.replace('"', "'") for c in calls)))
+        lines.append("")
+    # conditions (if / else-if) that mention one of the named callees, as normalised text, in source order
+    for f, fn, callees in spec.get("cond_funcs", []):
+        txt = H.src(repo, f)
+        body = H.func_body(txt, fn)
+        conds = []
+        for it in split_top(body):
+            if it[0] == "if" and any(re.search(r"\b%s\s*\(" % re.escape(c), it[1]) for c in callees):
+                conds.append(" ".join(it[1].split()))
+        lines.append("(* %s: conditions of %s that call %s, in source order *)" % (f, fn, ", ".join(callees)))
+        lines.append("Definition %s_q_conds : list string := [%s]." % (fn, ";\n  ".join('"%s"%%string' % c.replace('"', "'") for c in conds)))
         lines.append("")
     return lines
